@@ -28,23 +28,25 @@ class S(vlib.Spec):
         10: "nil mask: Read differs from code generated without with_field_mask",
         11: "a filtered non-required field is on the wire, or a required field is missing",
         12: "a plain peer cannot decode what Write emitted under the mask",
+        13: "a mask set on a non-root object: with field_mask_halfway the sub object is not its restriction, or without the option the mask has an effect",
     }
     names = {2: "malformed-encoding", 3: "write-not-the-restriction", 4: "nil-mask-write-differs", 5: "nil-mask-after-masked-write-differs",
              6: "read-not-the-restriction", 7: "masked-read-fails", 10: "nil-mask-read-differs", 11: "field-presence",
-             12: "peer-cannot-decode"}
+             12: "peer-cannot-decode", 13: "own-mask"}
     modelled = ("generator/golang/templates/struct.go with_field_mask branches: StructLikeWriteField (Field(id), required fields, zero values), "
                 "FieldWriteStructLike/Map/Set/List (header pre-count loops and filtering loops, Set_FieldMask/Pass_FieldMask), "
                 "StructLikeReadField, FieldReadStructLike/Map/Set/List (skip of filtered elements); generator/golang/thrift.go ZeroWriter "
                 "-> coq/Wire/Masked.v (hand-written over an abstract selector, instantiated with the field-mask library model coq/Mask/Trie.v "
                 "of property C14 and with residual path sets; after the repairs proposed_fixes/C13-1..6), on top of the standard codec "
                 "coq/Wire/Std.v (property C02); Pass_FieldMask on objects that already carry sub masks (field_mask_halfway, a second Write "
-                "of the same object) -> coq/Wire/MaskedHalfway.v, compared with the real second Write on every run; "
+                "of the same object) -> coq/Wire/MaskedHalfway.v, compared with the real second Write on every run; a mask set on a non-root "
+                "struct value -> coq/Wire/MaskedOwn.v, compared through the driver verb mwrite_own; "
                 "Wire/GenTables.v regenerated from generator/golang/types.go on every run")
     trusted_base = [
         "hand-written model coq/Wire/Masked.v (mirrors the with_field_mask branches of templates/struct.go and ZeroWriter) on top of Wire/Std.v, Wire/Value.v, Wire/Schema.v, Wire/Codec.v (C02's trusted base applies)",
         "the field-mask library model coq/Mask/{Path,Desc,Trie,Spec}.v of property C14 (queries Field/Int/Str/Exist/All, NewFieldMask); tied to fieldmask/*.go here through the masks the REAL library builds in every case and by C14's own check",
         "the descriptor the library sees is derived in Coq from the schema (Wire.Masked.dty_of / senv_of: typedefs resolved, union and exception types have no mask type) instead of being read from the generated reflection data",
-        "objects are fresh or were written once before as fresh objects (Wire/MaskedHalfway.v models the sub masks a halfway Write leaves behind); masks set by the user on non-root objects and shared pointers are outside the model",
+        "objects are fresh or were written once before as fresh objects (Wire/MaskedHalfway.v models the sub masks a halfway Write leaves behind); one mask set by the user on a non-root struct value reached through struct-typed fields is modelled (Wire/MaskedOwn.v, driver verb mwrite_own); several such masks, masks on container elements and shared pointers are outside the model",
         "github.com/apache/thrift v0.13.0 TBinaryProtocol / TMemoryBuffer / Skip as modelled by Wire/Codec.v",
         "harness/schemagen, valgen, maskkit (path rendering), cmd/c13 (value-directed path lists), gendrv + gendrv/driver (c13_mask.go: builds the mask with the real NewFieldMask, Set_FieldMask, Write / Read), coqfmt, casefile, lib/vlib.py, harness/cmd/translate-wire",
         "the real thriftgo binary and go build are run on every check",
